@@ -54,7 +54,10 @@ def gen_case(rnd, depth):
         p = ["and", p, ["is", rnd.choice(["null", "notNull"]), col("nz")]] if rnd.random() < 0.5 else \
             ["or", ["is", rnd.choice(["null", "notNull"]), col("nz")], p]
     q = select([["star"]], table("t"), wh=p)
-    return mk_case(doc, q, mode="seq")
+    # the same table with its integral numbers stored as another Go number kind (the engine accepts all of them)
+    nk = rnd.choice(["int", "int64", "int32", "int16", "int8", "uint", "uint64", "uint32", "uint16", "uint8", "float32", "mixed"]) \
+        if rnd.random() < 0.2 else None
+    return mk_case(doc, q, mode="seq", num_kind=nk)
 
 
 def nontrivial(c, g, l):
